@@ -195,3 +195,106 @@ pub fn account_std(r: &Runner, l: &mut Local, rec: &CaseRec, obs: &Obs, nontrivi
     }
     r.account(l, rec, nontrivial, note);
 }
+
+/// the HTTP/2 connection preface and a few other well-known literals: fixed bases for
+/// sweeps (magic-literal branches are invisible to grammar-derived generation)
+pub const LITERAL_BASES: [(&[u8], Entry); 6] = [
+    (b"PRI * HTTP/2.0\r\n\r\nSM\r\n\r\n", Entry::ReqParse),
+    (b"HEAD / HTTP/1.1\r\nHost: a\r\n\r\n", Entry::ReqParse),
+    (b"CONNECT example.com:443 HTTP/1.1\r\nHost: example.com:443\r\n\r\n", Entry::ReqParse),
+    (b"PUT /x HTTP/1.1\r\nContent-Length: 0\r\nTransfer-Encoding: chunked\r\n\r\n", Entry::ReqParse),
+    (b"HTTP/1.1 100 Continue\r\n\r\n", Entry::RespParse),
+    (b"HTTP/1.1 101 Switching Protocols\r\nUpgrade: websocket\r\nConnection: Upgrade\r\n\r\n", Entry::RespParse),
+];
+
+/// Dictionary sweep: every literal of the source under test (gen::dict) written over / inserted
+/// at every position of the first line of a few bases. Returns (number of cases, builder).
+pub const DICT_BASES: [(&[u8], Entry); 5] = [
+    (b"GET /index HTTP/1.1\r\nHost: a\r\n\r\n", Entry::ReqParse),
+    (b"HTTP/1.1 200 OK\r\nServer: a\r\n\r\n", Entry::RespParse),
+    (b"HTTP/1.0 404\r\n\r\n", Entry::RespParse),
+    (b"Host: example.com\r\nAccept: text/html\r\n\r\n", Entry::Headers),
+    (b"1a;ext=val\r\n", Entry::Chunk),
+];
+
+pub fn dict_phase<F>(r: &Runner, sub: &'static str, accept: &(dyn Fn(Entry, u8) -> bool + Sync), f: F)
+where
+    F: Fn(&Runner, &mut Ctx, &mut Local, &CaseRec) -> Result<(), Violation> + Sync,
+{
+    let d = crate::gen::dict();
+    if d.is_empty() {
+        return;
+    }
+    const POS: u64 = 24;
+    let total = d.len() as u64 * DICT_BASES.len() as u64 * POS * 3;
+    r.par_enum(&format!("auto-dictionary: {} literals of the source under test × 5 bases × first 24 positions × {{overwrite, insert, overwrite+truncate}}", d.len()), total, |ctx, l, idx| {
+        let mut x = idx;
+        let mode = x % 3;
+        x /= 3;
+        let pos = (x % POS) as usize;
+        x /= POS;
+        let (base, entry) = DICT_BASES[(x % DICT_BASES.len() as u64) as usize];
+        let tok = &d[(x / DICT_BASES.len() as u64) as usize];
+        if !accept(entry, 0) || pos > base.len() {
+            return Ok(());
+        }
+        let mut buf = base.to_vec();
+        match mode {
+            1 => {
+                for (i, c) in tok.iter().enumerate() {
+                    buf.insert(pos + i, *c);
+                }
+            }
+            _ => {
+                for (i, c) in tok.iter().enumerate() {
+                    if pos + i < buf.len() {
+                        buf[pos + i] = *c;
+                    } else {
+                        buf.push(*c);
+                    }
+                }
+                if mode == 2 {
+                    buf.truncate(pos + tok.len());
+                }
+            }
+        }
+        let rec = CaseRec::new(sub, entry, 0, 8, buf);
+        f(r, ctx, l, &rec)
+    });
+}
+
+/// G5 scale families at moderate sizes for the *semantic* checks: (family, size, variant)
+/// -> case. `accept(entry, cfg)` filters families to the property's domain.
+pub fn families_phase<F>(r: &Runner, sub: &'static str, accept: &(dyn Fn(Entry, u8) -> bool + Sync), f: F)
+where
+    F: Fn(&Runner, &mut Ctx, &mut Local, &CaseRec) -> Result<(), Violation> + Sync,
+{
+    const SIZES: [usize; 7] = [40, 100, 180, 300, 700, 1500, 4200];
+    let vars = 3u64;
+    let total = crate::gen::N_FAMILIES as u64 * SIZES.len() as u64 * vars;
+    r.par_enum("scale families at 40 B..4 KiB × {whole, truncated, late error}: long fields, whitespace runs, many headers, folds, ignored lines", total, |ctx, l, idx| {
+        let var = idx % vars;
+        let x = idx / vars;
+        let fam = (x % crate::gen::N_FAMILIES as u64) as usize;
+        let size = SIZES[(x / crate::gen::N_FAMILIES as u64) as usize];
+        let (entry, cfg, mut buf) = crate::gen::family(fam, size);
+        if !accept(entry, cfg) {
+            return Ok(());
+        }
+        let mut rng = crate::engine::Lcg(crate::engine::mix(idx ^ 0x5eed));
+        match var {
+            1 => {
+                let k = rng.below(buf.len() + 1);
+                buf.truncate(k);
+            }
+            2 => {
+                let k = buf.len() - 1 - rng.below(buf.len().min(60));
+                buf[k] = [0u8, 0x7f, b'\r', 0x01, b'\t', 0x80][rng.below(6)];
+            }
+            _ => {}
+        }
+        let lines = buf.iter().filter(|&&c| c == b'\n').count();
+        let rec = CaseRec::new(sub, entry, cfg, lines + 8, buf);
+        f(r, ctx, l, &rec)
+    });
+}
